@@ -287,6 +287,16 @@ func (c02) Generate(r *core.Rand, tier string, idx uint64) *core.Case {
 			case 6: // delegated / primary rule file vanishes
 				if _, ok := cur.Files["protect-main"]; ok {
 					delete(cur.Files, "protect-main")
+					if r.Chance(0.5) {
+						// ... together with the rule that delegated to it (renamed, everything validly signed)
+						t := cur.Files["targets"]
+						t.Version++
+						for i := range t.Rules {
+							if t.Rules[i].Name == "protect-main" {
+								t.Rules[i].Name = "protect-main-v2"
+							}
+						}
+					}
 				} else {
 					delete(cur.Files, "targets")
 				}
